@@ -348,7 +348,7 @@ def upwindMean(phi: CellVariable, u: FaceVariable):
     # face variable
     # TBD: needs to be fixed. It must be a linear mean, adjusted for velocity
     # currently, it assumes a uniform mesh.
-    phi_tmp = np.copy(phi._value)
+    phi_tmp = np.array(phi._value, dtype=float)
     if issubclass(type(phi.domain), Grid1D):
         ux = u._xvalue
         # assign the value of the left boundary to the left ghost cell
